@@ -38,7 +38,7 @@ func init() {
 		Rule: "case = sketch reached by a seeded history incl. cleared-then-refilled stores, negatives with every store kind and arbitrary non-negative float64 weights: ToProto -> proto.Marshal -> Unmarshal -> FromProtoWithStoreProvider(any kind) must give an Equals mapping and bitwise equal zero weight and bin weights (count within 1e-12); EncodeProto bytes must unmarshal to a message proto.Equal to ToProto(); " +
 			"sources are also reweighted and may hold bins whose weight underflowed to zero (which carry nothing to rebuild); hand-built messages mixing binCounts and contiguousBinCounts (dyadic weights where they overlap, indexes also at both ends of the int32 range) must add up, and the rebuilt sketch written again by both writers must describe the same bins. Non-trivial = both stores non-empty and >=1 non-integer weight; distinct = hash of the history.",
 		Cases:     core.Scale(60000, 1500000),
-		Mandatory: []string{"oracle.proto_roundtrips", "oracle.stream_equals_message", "oracle.mixed_message_checks", "weights.arbitrary", "source.cleared_then_refilled", "proto.target.dense", "proto.target.sparse", "proto.target.paginated", "proto.target.collapsing_lowest", "proto.target.collapsing_highest", "proto.via_FromProto", "proto.via_paginated_method", "source.underflowed_bins", "source.reweighted", "mixed.extreme_indexes", "oracle.mixed_second_leg"},
+		Mandatory: []string{"oracle.proto_roundtrips", "oracle.stream_equals_message", "oracle.mixed_message_checks", "weights.arbitrary", "source.cleared_then_refilled", "proto.target.dense", "proto.target.sparse", "proto.target.paginated", "proto.target.collapsing_lowest", "proto.target.collapsing_highest", "proto.via_FromProto", "proto.via_paginated_method", "source.underflowed_bins", "source.reweighted", "mixed.extreme_indexes", "oracle.mixed_second_leg", "source.unread_before_writing"},
 		Run:       runC09,
 	})
 }
@@ -453,10 +453,26 @@ func runC09(c *core.Ctx) {
 	c.Logf("plain sketch mapping %s store %s, %d values, pattern %s, underflowed bins %v", m.Desc, spec, len(vs.vals), pattern, underflowed)
 	// arbitrary weights: totals of the sparse store depend on map iteration order, so the unchanged-source
 	// comparison is made on bins and zero weight, bit for bit
-	bp0, _, _ := mon.ForEachBins(s.P.GetPositiveValueStore())
-	bn0, _, _ := mon.ForEachBins(s.P.GetNegativeValueStore())
+	// half of the sources are written without having answered any query since their history (iteration sorts
+	// and compacts what the stores hold); the other half is read before and after
+	unread := r.Bool()
+	var bp0, bn0 []mon.KV
+	if !unread {
+		bp0, _, _ = mon.ForEachBins(s.P.GetPositiveValueStore())
+		bn0, _, _ = mon.ForEachBins(s.P.GetNegativeValueStore())
+	} else {
+		c.Count("source.unread_before_writing", 1)
+	}
 	z0 := s.P.GetZeroCount()
 	var pb *sketchpb.DDSketch
+	var buf bytes.Buffer
+	streamFirst := r.Bool() // either writer may be the first call the sketch sees after its history
+	if streamFirst {
+		c.Count("source.streamed_before_ToProto", 1)
+		if c.Guard("EncodeProto", func() { s.P.EncodeProto(&buf) }) {
+			return
+		}
+	}
 	if c.Guard("ToProto", func() { pb = s.P.ToProto() }) {
 		return
 	}
@@ -466,9 +482,10 @@ func runC09(c *core.Ctx) {
 		return
 	}
 	// streaming writer
-	var buf bytes.Buffer
-	if c.Guard("EncodeProto", func() { s.P.EncodeProto(&buf) }) {
-		return
+	if !streamFirst {
+		if c.Guard("EncodeProto", func() { s.P.EncodeProto(&buf) }) {
+			return
+		}
 	}
 	var streamed sketchpb.DDSketch
 	if err := proto.Unmarshal(buf.Bytes(), &streamed); err != nil {
@@ -485,6 +502,9 @@ func runC09(c *core.Ctx) {
 	if underflowed {
 		// a bin of weight zero carries nothing to rebuild
 		srcPos, srcNeg, bp0, bn0 = positiveBins(srcPos), positiveBins(srcNeg), positiveBins(bp0), positiveBins(bn0)
+	}
+	if unread {
+		bp0, bn0 = srcPos, srcNeg
 	}
 	if d := diffBins(bp0, srcPos) + diffBins(bn0, srcNeg); d != "" || math.Float64bits(z0) != math.Float64bits(s.P.GetZeroCount()) {
 		c.Failf("proto.changed_source", "ToProto/EncodeProto changed the sketch: %s", d)
